@@ -33,21 +33,15 @@ def parseStorage (s : String) : Option (Storage × String) :=
 
 def i128max : Nat := 2 ^ 127 - 1
 
-/-- known-defect classes (see findings/C15.json) -/
+/-- known-defect classes (see findings/C15.json).  The classes of the repaired defects
+(`C15.udl_round_integer_with_fraction`, `C15.octal_separator_after_prefix`,
+`C15.static_negative_power_of_two`, `C15.signed_trailing_radix_point`) are gone: a recurrence is a
+violation. -/
 def clsEstimate := "C15.decimal_width_estimate"
-def clsUdlRound := "C15.udl_round_integer_with_fraction"
-def clsStaticPow2 := "C15.static_negative_power_of_two"
-def clsOctSep := "C15.octal_separator_after_prefix"
-def clsSignedPoint := "C15.signed_trailing_radix_point"
+def clsStaticLowest := "C15.static_number_lowest_value"
 
-/-- the class of `clsSignedPoint`: a signed token that ends in the radix point (`-5.`) -/
-def signedPoint (t : Token.Token) : Bool := t.signed && t.body.hasPoint && t.body.frac == 0
-
-/-- the class of `clsOctSep`: an octal token whose leading `0` is directly followed by a separator -/
-def octSep (cs : List Char) : Bool :=
-  match cs with
-  | '+' :: '0' :: '\'' :: _ | '-' :: '0' :: '\'' :: _ | '0' :: '\'' :: _ => true
-  | _ => false
+/-- a signed one-digit octal token (`-07`, `-0'7`): read as the decimal `07`, same value -/
+def signedOctalDigit (t : Token.Token) : Bool := t.signed && t.body.base == 8 && t.body.digits.length == 1
 
 /-- `<type>:<rep>:<value>` -/
 def splitMade (res : String) : Option (Ty × String × Int) :=
@@ -83,7 +77,8 @@ def holdsExactly (res : String) (want : Rat) : Bool :=
   | none => false
 
 /-- `Cnl.C15.Located` as a Boolean: the scanner found base, sign, stride and exactly the digits of
-the grammar (the hypothesis of the `parse_exact_*_partial` theorems, evaluated on every token) -/
+the grammar (the hypothesis of the `parse_exact_*_of_located` theorems, proved for every well-formed token by
+`Cnl.C15.located_of_wellFormed` and still evaluated on every token of every run) -/
 def located (cs : List Char) (t : Token.Token) : Bool :=
   match scanString cs with
   | .ok p =>
@@ -96,8 +91,6 @@ def located (cs : List Char) (t : Token.Token) : Bool :=
      | .ok (ds, _) => ds == t.body.digits || (t.body.base == 8 && p.base == 10 && ds == 0 :: t.body.digits)
      | _ => false)
   | _ => false
-
-def isPow2 (n : Nat) : Bool := n != 0 && 2 ^ n.log2 == n
 
 def checkC15 (toks : List String) (res : String) : Option Verdict :=
   match toks with
@@ -113,12 +106,12 @@ def checkC15 (toks : List String) (res : String) : Option Verdict :=
       let ok : Bool := match nums with
         | [_, base, _, _, bits, digits, frac] =>
           decide (sig < 2 ^ bits) && located cs t &&
-          (t.signed || (base == t.body.base && digits == t.body.digits.length && frac == t.body.frac))
+          (signedOctalDigit t || (base == t.body.base && digits == t.body.digits.length && frac == t.body.frac))
         | _ => false
       let short : Bool := match nums with
         | [_, _, _, _, bits, _, _] => t.body.base == 10 && decide (sig ≥ 2 ^ bits)
         | _ => false
-      some { model, spec := some ok, cls := if octSep cs then clsOctSep else if signedPoint t then clsSignedPoint else if short then clsEstimate else "",
+      some { model, spec := some ok, cls := if short then clsEstimate else "",
              branch := s!"scan/base{t.body.base}" ++ (if t.body.hasPoint then "/frac" else "") }
   | ["parse", ty, tok] => do
     let (S, tyName) ← parseStorage ty
@@ -129,7 +122,7 @@ def checkC15 (toks : List String) (res : String) : Option Verdict :=
     | none => some { model, branch := "parse/malformed", nontrivial := false }
     | some t =>
       if t.isInteger && S.holds t.significand then
-        some { model, spec := some (res == s!"{tyName}:{t.significand}"), cls := if octSep cs then clsOctSep else if signedPoint t then clsSignedPoint else "",
+        some { model, spec := some (res == s!"{tyName}:{t.significand}"), cls := "",
                branch := s!"parse/base{t.body.base}/chunks{t.body.digits.length / (if t.body.base == 10 then 18 else if t.body.base == 16 then 15 else if t.body.base == 8 then 21 else 63)}" }
       else
         some { model, branch := if t.isInteger then "parse/does-not-fit" else "parse/fraction", nontrivial := false }
@@ -148,7 +141,7 @@ def checkC15 (toks : List String) (res : String) : Option Verdict :=
           let ok := res == s!"c(i128):{sig}:D{Token.bitLength sig}"
           let short := t.body.base == 10 && (match scanString cs with
             | .ok p => decide (sig ≥ 2 ^ p.numBits) | _ => false)
-          some { model, spec := some ok, cls := if octSep cs then clsOctSep else if short then clsEstimate else "", branch := "lit/c" }
+          some { model, spec := some ok, cls := if short then clsEstimate else "", branch := "lit/c" }
         else some { model, branch := "lit/c/unrepresentable", nontrivial := false }
       | none => some { model, branch := "lit/c/malformed", nontrivial := false }
     | "wide" =>
@@ -158,7 +151,7 @@ def checkC15 (toks : List String) (res : String) : Option Verdict :=
         if t.isInteger then
           let short := t.body.base == 10 && (match scanString cs with
             | .ok p => decide (t.significand.toNat ≥ 2 ^ p.numBits) | _ => false)
-          some { model, spec := some (holdsExactly res t.value), cls := if octSep cs then clsOctSep else if short then clsEstimate else "",
+          some { model, spec := some (holdsExactly res t.value), cls := if short then clsEstimate else "",
                  branch := "lit/wide/" ++ (match litWide cs with | .ok m => m.rep.name | _ => "rejected") }
         else some { model, branch := "lit/wide/fraction", nontrivial := false }
       | none => some { model, branch := "lit/wide/malformed", nontrivial := false }
@@ -173,9 +166,8 @@ def checkC15 (toks : List String) (res : String) : Option Verdict :=
         if representable && sig ≤ i128max / out then
           let short := t.body.base == 10 && (match scanString cs with
             | .ok p => decide (sig ≥ 2 ^ p.numBits) | _ => false)
-          let round := t.body.frac > 0 && sig % (t.body.base ^ t.body.frac * out) == 0 && sig != 0
           some { model, spec := some (holdsExactly res t.value),
-                 cls := if octSep cs then clsOctSep else if short then clsEstimate else if round then clsUdlRound else "",
+                 cls := if short then clsEstimate else "",
                  branch := s!"lit/{kind}" ++ (if t.body.hasPoint then "/frac" else "") }
         else some { model, branch := s!"lit/{kind}/unrepresentable", nontrivial := false }
       | none => some { model, branch := s!"lit/{kind}/malformed", nontrivial := false }
@@ -204,15 +196,14 @@ def checkC15 (toks : List String) (res : String) : Option Verdict :=
         | none => false
       | none => false
     let ok := holdsExactly res (v : Rat) && promised
-    let pow2 := v < 0 && isPow2 v.natAbs && (fn == "static_integer" || fn == "static_number")
-    some { model, spec := some ok, cls := if pow2 then clsStaticPow2 else "", branch := s!"mk/{fn}/c" }
+    some { model, spec := some ok, cls := "", branch := s!"mk/{fn}/c" }
   | ["mk", fn, ty, v] => do
     let T ← parseIntTy ty
     let v ← v.toInt?
     let m ← makeFromValue fn T v
     let model := showLit showMade m
     let lowest := T.signed && v == T.lowest && fn == "static_number"
-    some { model, spec := some (holdsExactly res (v : Rat)), cls := if lowest then clsStaticPow2 else "", branch := s!"mk/{fn}/{ty}" }
+    some { model, spec := some (holdsExactly res (v : Rat)), cls := if lowest then clsStaticLowest else "", branch := s!"mk/{fn}/{ty}" }
   | _ => none
 
 end Cnl.Drv
